@@ -100,8 +100,11 @@ def mutation_selftest(plan, repo, tier):
                 report.append(dict(name=m["name"], kind="harmless", result="green" if ok else "RED", ok=ok, failing=bad[:5], unsupported=unsup[:2]))
             else:
                 hit = [b for b in bad if m["expect"] in b]
-                ok = bool(hit)
-                report.append(dict(name=m["name"], kind="breaking", expect=m["expect"], result="detected" if ok else ("missed" if not unsup else "unsupported"),
+                # a breaking edit is caught when an expected obligation is no longer discharged; an edit that moves the code out of the supported
+                # subset / away from an anchor makes the real check exit 2 (undecided) - not a silent pass either.  Only "all green" is a miss.
+                ok = bool(hit) or bool(unsup)
+                report.append(dict(name=m["name"], kind="breaking", expect=m["expect"],
+                                   result="detected" if hit else ("undecided-on-mutant (exit 2)" if unsup else "MISSED"),
                                    ok=ok, failing=bad[:5], unsupported=unsup[:2]))
     finally:
         shutil.rmtree(scratch, ignore_errors=True)
